@@ -50,6 +50,9 @@ if sys.argv[1] == 'build':
                 pf = os.path.join(rd, n, 'patch.diff')
                 if os.path.exists(pf) and not os.path.exists(os.path.join(VF, '%s-%s.json' % (a, n))):
                     tasks.append(('%s-%s' % (a, n), pf))
+    for f in sorted(os.listdir(root)):
+        if f.endswith('.patch'):
+            tasks.append((f[:-6], os.path.join(root, f)))
     with ProcessPoolExecutor(16) as ex:
         for name, st in ex.map(build_one, tasks):
             print(name, st)
